@@ -44,3 +44,12 @@ VARIANTS = [
     V("twin-positional", BS, "interp.linear_interp(t0=prev_t, y0=prev_y, t1=curr_t, y1=curr_y, t=out_t)",
       "interp.linear_interp(prev_t, prev_y, curr_t, curr_y, out_t)", expect="silent"),
 ]
+
+SNAP = "                if ts[-1] - next_t < 1e-3 * step_size:\n"
+VARIANTS += [
+    V("grid-merge-half-step", CORE + "base_solver.py", SNAP, "                if ts[-1] - next_t < 0.6 * step_size:\n", rule="R12.7"),
+    V("grid-merge-to-output-time", CORE + "base_solver.py", SNAP + "                    # The grid", "                if out_t - next_t < 1e-3 * step_size:\n                    # The grid", rule="R12.1"),
+    V("grid-snap-sets-output-time", CORE + "base_solver.py", "                    next_t = ts[-1]\n", "                    next_t = out_t\n", rule="R12.1"),
+    V("twin-grid-merge-le", CORE + "base_solver.py", SNAP, "                if ts[-1] - next_t <= 1e-3 * step_size:\n", expect="silent"),
+    V("twin-grid-no-merge", CORE + "base_solver.py", SNAP, "                if ts[-1] - next_t < 0 * step_size:\n", expect="silent"),
+]
